@@ -159,6 +159,12 @@ class CallMixin:
             if name == "len" and args and isinstance(args[0], tuple) and args[0][0] in ("list", "tuple"):
                 yield "ok", const(len(args[0][1])), st
                 return
+            if name == "len" and args and isinstance(args[0], tuple) and args[0][0] == "constobj":
+                try:
+                    yield "ok", const(len(self.constobj_value(args[0]))), st
+                    return
+                except NotConst:
+                    pass
             yield "ok", ("call", f, tuple(args)), st
             return
         if k == "calllater":
